@@ -23,8 +23,14 @@ package api
 //@ ghost ntdst map[int]*model.FeatureAddressType
 //@ ghost ntcmd map[int]int
 //@ modset NTLOG = ntn, nts, ntsrc, ntdst, ntcmd
-// everything a Publish may change (it runs the core handlers synchronously)
+// log of entity removals requested from a remote device (C06): ren calls so far, redev/readdr[k] device and address
+//@ ghost ren int
+//@ ghost redev map[int]any
+//@ ghost readdr map[int][]model.AddressEntityType
+// everything a Publish may change (it runs the core handlers synchronously); the message-processing chain uses the same
+// set, so it also lists what the discovery handlers change: the removal log and the (in-place) diff of a full notification
 //@ modset PUBLISH = evn, ev, dn, dh, dp, dsp, world, spine.Events.handlers, spawn, outmisc, ntn, nts, ntsrc, ntdst, ntcmd
+//@ modset DISCOVERY = ren, redev, readdr, cells(model.NodeManagementDetailedDiscoveryDataType), cells(model.NetworkManagementEntityDescriptionDataType), cells(model.NodeManagementDetailedDiscoveryEntityInformationType), cells(model.NodeManagementDetailedDiscoveryFeatureInformationType), cells(model.NetworkManagementStateChangeType), cells(model.EntityTypeType)
 
 // Assumed contracts of the api interfaces, used at interface call sites.
 // "pure": no side effect; the result is a function of the receiver, the arguments and the
@@ -174,10 +180,6 @@ package api
 //@   modifies world
 //@ iface api.DeviceRemoteInterface.AddEntityAndFeatures
 //@   modifies world, held
-// log of entity removals requested from a remote device (C06): ren calls so far, redev/readdr[k] device and address
-//@ ghost ren int
-//@ ghost redev map[int]any
-//@ ghost readdr map[int][]model.AddressEntityType
 //@ iface api.DeviceRemoteInterface.RemoveEntityByAddress
 //@   ensures ren == old(ren) + 1 && redev == store(old(redev), old(ren), self) && readdr == store(old(readdr), old(ren), addr)
 //@   modifies world, held, ren, redev, readdr
@@ -248,4 +250,4 @@ package api
 //@   ensures prn == old(prn) + 1 && prsender == store(old(prsender), old(prn), self) && prref == store(old(prref), old(prn), msgCounterRef)
 //@   modifies prn, prsender, prref, held, map(gomap[model.MsgCounterType]string)
 //@ iface api.DeviceLocalInterface.ProcessCmd
-//@   modifies @RESP, @PUBLISH, @WRITE, world, held, spawn, hmn, sendfails, map(gomap[model.MsgCounterType]string), @SETLOG
+//@   modifies @RESP, @PUBLISH, @WRITE, world, held, spawn, hmn, sendfails, map(gomap[model.MsgCounterType]string), @SETLOG, @DISCOVERY
